@@ -12,11 +12,11 @@
 CONSTANTS Members, Vals, HwMax,                 \* LinkedStruct
           Tables, Shapes, Xs,                   \* LinkedFloatEnum
           Kinds, Lo, Hi, PVals, LVals, ForbSets,\* LinkedLimits
-          Ctls                                  \* LinkedControl
+          Layouts                               \* LinkedControl
 VARIABLES shw, mem, str,
           tab, shape, idx, fhw, fval, flast,
           kind, forb, lo, hi, lval, llast,
-          n, active, cby
+          lay, active, cby, foreign
 
 S == INSTANCE LinkedStruct WITH hw <- shw
 F == INSTANCE LinkedFloatEnum WITH tab <- tab, shape <- shape, idx <- idx, hw <- fhw, val <- fval, last <- flast,
@@ -27,7 +27,7 @@ C == INSTANCE LinkedControl
 sv == <<shw, mem, str>>
 fv == <<tab, shape, idx, fhw, fval, flast>>
 lv == <<kind, forb, lo, hi, lval, llast>>
-cv == <<n, active, cby>>
+cv == <<lay, active, cby, foreign>>
 
 Init == S!SInit /\ F!FInit /\ L!LInit /\ C!CInit
 Next == \/ S!SNext /\ UNCHANGED <<fv, lv, cv>>
@@ -38,6 +38,7 @@ Spec == Init /\ [][Next]_<<sv, fv, lv, cv>>
 
 Consistent == /\ S!Agree
               /\ F!ShowsIndexValue
-              /\ C!AtMostOne /\ C!NamesTheActive
+              /\ C!AtMostOne /\ C!NamesTheActive /\ C!ForeignIntact
+ControlFrame == C!HandOver /\ C!Frame
 LimitsRespected == L!AcceptedInside /\ L!InvertedTupleRefused /\ L!NothingUnderInverted
 ===============================================================================
